@@ -155,7 +155,7 @@ pub fn misc_surface(strs: &[String], st: &mut Stats) {
         errs!(precis_profiles::UsernameCasePreserved);
     }
     // hand-built error values at the extremes of their fields
-    for cp in [0u32, 0x41, 0x10FFFF, 0x110000, u32::MAX] {
+    for cp in [0u32, 0x41, 0xD800, 0xDFFF, 0xFFFE, 0x10FFFF, 0x110000, u32::MAX] {
         for pos in [0usize, 1, usize::MAX / 2, usize::MAX] {
             for dp in DP::ALL {
                 st.evaluations += 1;
@@ -173,6 +173,162 @@ pub fn misc_surface(strs: &[String], st: &mut Stats) {
         }
     }
     st.count("out:misc-surface");
+}
+
+// ---- calls made while a thread is being torn down ----------------------------------------
+// An application that keeps a session in a thread-local and flushes it in `Drop` calls the
+// library from a thread-local destructor. Destructors run in reverse registration order, so
+// whether the library's own per-thread state (if it has any) is still alive depends on which
+// was touched first. A panic there aborts the process: the scenario runs in a child.
+
+const TLS_INPUTS: [&str; 8] = ["abc", "Abc D", " \u{e9}\u{3000}\u{ff22} ", "\u{5d0}1", "\u{aa}\u{2168}", "\u{628}\u{200c}\u{628}", "l\u{b7}l\u{30a2}\u{30fb}\u{661}", "a\u{9}"];
+
+struct Session {
+    input: usize,
+}
+
+/// every string operation, called directly: no harness wrapper may be involved here, because the
+/// wrappers keep their own per-thread state, which is torn down in the same phase
+fn raw_ops(s: &str) -> Vec<String> {
+    use precis_core::profile::{PrecisFastInvocation, Profile, Rules};
+    use precis_core::{FreeformClass, IdentifierClass, StringClass};
+    use precis_profiles::{Nickname, OpaqueString, UsernameCaseMapped, UsernameCasePreserved};
+    use std::panic::{catch_unwind, AssertUnwindSafe};
+    let mut failed = Vec::new();
+    let mut run = |name: &str, f: &mut dyn FnMut()| {
+        if catch_unwind(AssertUnwindSafe(|| f())).is_err() {
+            failed.push(name.to_string());
+        }
+    };
+    macro_rules! prof {
+        ($t:ty, $n:expr) => {{
+            run(concat!($n, " instance"), &mut || {
+                let p = <$t>::new();
+                let _ = p.prepare(s);
+                let _ = p.enforce(s);
+                let _ = p.enforce(s.to_string());
+                let _ = p.compare(s, s);
+                let _ = p.compare(s, "a");
+            });
+            run(concat!($n, " static"), &mut || {
+                let _ = <$t as PrecisFastInvocation>::prepare(s);
+                let _ = <$t as PrecisFastInvocation>::enforce(s);
+                let _ = <$t as PrecisFastInvocation>::compare(s, "a");
+            });
+            run(concat!($n, " rules"), &mut || {
+                let p = <$t>::new();
+                let _ = p.width_mapping_rule(s);
+                let _ = p.additional_mapping_rule(s);
+                let _ = p.case_mapping_rule(s);
+                let _ = p.normalization_rule(s);
+                let _ = p.directionality_rule(s);
+                let _ = p.case_mapping_rule(s.to_string());
+                let _ = p.normalization_rule(s.to_string());
+            });
+        }};
+    }
+    prof!(Nickname, "Nickname");
+    prof!(OpaqueString, "OpaqueString");
+    prof!(UsernameCaseMapped, "UsernameCaseMapped");
+    prof!(UsernameCasePreserved, "UsernameCasePreserved");
+    run("classes", &mut || {
+        let _ = IdentifierClass::default().allows(s);
+        let _ = FreeformClass::default().allows(s);
+        for c in s.chars() {
+            let _ = IdentifierClass::default().get_value_from_char(c);
+            let _ = FreeformClass::default().get_value_from_codepoint(c as u32);
+        }
+    });
+    run("context rules", &mut || {
+        for (pos, c) in s.chars().enumerate() {
+            if let Some(r) = precis_core::context::get_context_rule(c as u32) {
+                let _ = r(s, pos);
+            }
+            for r in CtxRule::ALL {
+                let _ = (r.func())(s, pos);
+            }
+        }
+    });
+    failed
+}
+
+impl Drop for Session {
+    fn drop(&mut self) {
+        let s = TLS_INPUTS[self.input % TLS_INPUTS.len()];
+        for f in raw_ops(s) {
+            println!("DTOR-PANIC {}", f);
+        }
+        println!("DTOR-DONE {}", self.input);
+    }
+}
+
+thread_local! {
+    static SESSION: std::cell::RefCell<Option<Session>> = const { std::cell::RefCell::new(None) };
+}
+
+/// child mode `pmc __tlsdtor <order> <input>`: order 0 = the session is created BEFORE the thread's
+/// first library call, 1 = after it, 2 = the thread never calls the library outside the destructor
+pub fn child_tls_dtor(order: usize, input: usize) -> i32 {
+    std::panic::set_hook(Box::new(|_| {}));
+    let h = std::thread::spawn(move || {
+        let s = TLS_INPUTS[input % TLS_INPUTS.len()];
+        let mut failed = 0usize;
+        if order == 1 {
+            failed += raw_ops(s).len();
+        }
+        SESSION.with(|c| *c.borrow_mut() = Some(Session { input }));
+        if order == 0 {
+            failed += raw_ops(s).len();
+        }
+        failed
+    });
+    match h.join() {
+        Ok(n) => {
+            println!("THREAD-JOINED {}", n);
+            0
+        }
+        Err(_) => {
+            println!("THREAD-PANICKED");
+            0
+        }
+    }
+}
+
+pub fn tls_destructor_scenarios(st: &mut Stats) {
+    let bin = match std::env::var("PMC_BIN").map(std::path::PathBuf::from).or_else(|_| std::env::current_exe()) {
+        Ok(b) => b,
+        Err(_) => return,
+    };
+    for order in 0..3usize {
+        for input in 0..TLS_INPUTS.len() {
+            st.states += 1;
+            st.transitions += 1;
+            st.evaluations += 1;
+            let out = std::process::Command::new(&bin).arg("__tlsdtor").arg(order.to_string()).arg(input.to_string()).output();
+            let (ok, text) = match &out {
+                Ok(o) => {
+                    let t = String::from_utf8_lossy(&o.stdout).to_string();
+                    (
+                        o.status.success() && t.contains("THREAD-JOINED 0") && t.contains(&format!("DTOR-DONE {}", input)) && !t.contains("DTOR-PANIC"),
+                        format!("{:?}: {} {}", o.status, t.replace('\n', " | "), String::from_utf8_lossy(&o.stderr).lines().last().unwrap_or("")),
+                    )
+                }
+                Err(e) => {
+                    st.caps_hit.push(format!("MACHINERY: cannot run the thread-teardown child: {}", e));
+                    return;
+                }
+            };
+            if !ok {
+                st.violation(
+                    "panic",
+                    || Case::new("tls_dtor").n(order as u64).n(input as u64).s(TLS_INPUTS[input]),
+                    "every operation called from a thread-local destructor at thread exit returns (session created before / after / without an earlier library call on that thread)".into(),
+                    text.chars().take(400).collect(),
+                );
+            }
+        }
+    }
+    st.count("out:thread-teardown");
 }
 
 /// the operations that reach every table lookup: enforce and compare of each profile, allows
@@ -333,6 +489,12 @@ pub fn run(_env: &Env, run: &Run) -> (Stats, Coverage) {
         misc_surface(&strs, &mut s4);
         st.merge(s4);
     }
+    // (b3) the library called from a thread-local destructor while its thread exits
+    if !lite() {
+        let mut s5 = Stats::default();
+        tls_destructor_scenarios(&mut s5);
+        st.merge(s5);
+    }
     // (c)+(d) string tree: all operations; context rules at every position for short strings
     let sigma = crate::sig::rotated(_env, sigma01(), run.seed);
     let n = run.tier.pick(3, 4);
@@ -435,6 +597,11 @@ pub fn replay(_env: &Env, case: &Case) -> Vec<Violation> {
         "default_rule" | "error_value" => {
             let strs = if case.strs.is_empty() { vec![] } else { vec![case.str_at(0).to_string()] };
             misc_surface(&strs, &mut st);
+        }
+        "tls_dtor" => {
+            let mut all = Stats::default();
+            tls_destructor_scenarios(&mut all);
+            st.violations = all.violations.into_iter().filter(|v| v.case.nums == case.nums).collect();
         }
         "stabilize" => {
             st.violations = crate::props::c13::replay(_env, case).into_iter().filter(|v| v.kind == "panic").collect();
